@@ -62,10 +62,14 @@ CAMLprim value c10_uncompress(value vid, value vin, value voutsize)
 	CAMLparam3(vid, vin, voutsize);
 	CAMLlocal2(res, bytes);
 	size_t outsize = Long_val(voutsize), n = caml_string_length(vin);
-	/* the whole output buffer is returned: zero-filled first (the library callocs its block buffers),
-	   so bytes behind ret are what the codec left there */
+	/* the whole output buffer is returned: zero-filled first (the library callocs its block buffers) */
 	unsigned char *out = calloc(1, outsize + 1);
 	long ret = do_uncompress(Int_val(vid), (const unsigned char *)String_val(vin), n, out, outsize);
+	/* out[ret .. outsize) is no function of the arguments (zstd/lz4 wild copies, literals staged in a malloc()ed
+	   DCtx: heap leftovers of the process); h_reader.c hands the readers a compressor that restores the caller's
+	   bytes there (tame_do_block), here the caller's bytes are the zeros of calloc */
+	if (ret > 0 && (size_t)ret < outsize)
+		memset(out + ret, 0, outsize - (size_t)ret);
 	bytes = caml_alloc_string(outsize);
 	memcpy(Bytes_val(bytes), out, outsize);
 	free(out);
